@@ -459,13 +459,50 @@ func NewStorageLog(address common.Address, processor types.ChangeLogProcessor, k
 		return nil, fmt.Errorf("can't create storage log: %v", err)
 	}
 	return &types.ChangeLog{
-		LogType: StorageLog,
-		Address: account.GetAddress(),
-		Version: account.GetNextVersion(StorageLog),
-		OldVal:  cloneBytes(oldValue),
-		NewVal:  cloneBytes(newVal),
-		Extra:   key,
+		LogType:  StorageLog,
+		Address:  account.GetAddress(),
+		Version:  account.GetNextVersion(StorageLog),
+		OldVal:   cloneBytes(oldValue),
+		NewVal:   cloneBytes(newVal),
+		Extra:    key,
+		OldClean: isCleanSlot(account, StorageLog, key),
 	}, nil
+}
+
+// isCleanSlot tells whether the storage slot a change log is about to write has no pending write yet
+func isCleanSlot(accessor types.AccountAccessor, logType types.ChangeLogType, key common.Hash) bool {
+	account, ok := accessor.(*Account)
+	if !ok {
+		return false
+	}
+	switch logType {
+	case StorageLog:
+		return !account.storage.IsDirty(key)
+	case AssetIdLog:
+		return !account.assetId.IsDirty(key)
+	case EquityLog:
+		return !account.equity.IsDirty(key)
+	}
+	return false
+}
+
+// revertCleanSlot undoes the write of a slot which had no pending write before (ChangeLog.OldClean), leaving no pending write behind
+func revertCleanSlot(accessor types.AccountAccessor, logType types.ChangeLogType, key common.Hash, oldValue []byte) bool {
+	account, ok := accessor.(*Account)
+	if !ok {
+		return false
+	}
+	switch logType {
+	case StorageLog:
+		account.storage.RevertState(key, oldValue)
+	case AssetIdLog:
+		account.assetId.RevertState(key, oldValue)
+	case EquityLog:
+		account.equity.RevertState(key, oldValue)
+	default:
+		return false
+	}
+	return true
 }
 
 func redoStorage(c *types.ChangeLog, processor types.ChangeLogProcessor) error {
@@ -495,6 +532,9 @@ func undoStorage(c *types.ChangeLog, processor types.ChangeLogProcessor) error {
 		return types.ErrWrongChangeLogData
 	}
 	accessor := processor.GetAccount(c.Address)
+	if c.OldClean && revertCleanSlot(accessor, StorageLog, key, oldVal) {
+		return nil
+	}
 	return accessor.SetStorageState(key, oldVal)
 }
 
@@ -737,12 +777,13 @@ func NewAssetIdLog(address common.Address, processor types.ChangeLogProcessor, i
 		return nil, fmt.Errorf("can't create asset log: %v", err)
 	}
 	return &types.ChangeLog{
-		LogType: AssetIdLog,
-		Address: account.GetAddress(),
-		Version: account.GetNextVersion(AssetIdLog),
-		OldVal:  oldValue,
-		NewVal:  newVal,
-		Extra:   id,
+		LogType:  AssetIdLog,
+		Address:  account.GetAddress(),
+		Version:  account.GetNextVersion(AssetIdLog),
+		OldVal:   oldValue,
+		NewVal:   newVal,
+		Extra:    id,
+		OldClean: isCleanSlot(account, AssetIdLog, id),
 	}, nil
 }
 
@@ -773,6 +814,9 @@ func undoAssetId(c *types.ChangeLog, processor types.ChangeLogProcessor) error {
 		return types.ErrWrongChangeLogData
 	}
 	accessor := processor.GetAccount(c.Address)
+	if c.OldClean && revertCleanSlot(accessor, AssetIdLog, id, []byte(oldVal)) {
+		return nil
+	}
 	return accessor.SetAssetIdState(id, oldVal)
 }
 
@@ -818,10 +862,11 @@ func NewEquityLog(address common.Address, processor types.ChangeLogProcessor, id
 	}
 
 	changeLog := &types.ChangeLog{
-		LogType: EquityLog,
-		Address: account.GetAddress(),
-		Version: account.GetNextVersion(EquityLog),
-		Extra:   id,
+		LogType:  EquityLog,
+		Address:  account.GetAddress(),
+		Version:  account.GetNextVersion(EquityLog),
+		Extra:    id,
+		OldClean: isCleanSlot(account, EquityLog, id),
 	}
 
 	if oldValue == nil {
@@ -868,12 +913,20 @@ func undoEquity(c *types.ChangeLog, processor types.ChangeLogProcessor) error {
 	accessor := processor.GetAccount(c.Address)
 	// the account held no equity of this id before the change (NewEquityLog stores nil then)
 	if c.OldVal == nil {
+		if c.OldClean && revertCleanSlot(accessor, EquityLog, id, nil) {
+			return nil
+		}
 		return accessor.SetEquityState(id, nil)
 	}
 	oldVal, ok := c.OldVal.(*types.AssetEquity)
 	if !ok {
 		log.Errorf("undoEquity expected OldVal *types.AssetEquity, got %T", c.OldVal)
 		return types.ErrWrongChangeLogData
+	}
+	if c.OldClean {
+		if val, err := rlp.EncodeToBytes(oldVal); err == nil && revertCleanSlot(accessor, EquityLog, id, val) {
+			return nil
+		}
 	}
 	return accessor.SetEquityState(id, oldVal)
 }
